@@ -862,6 +862,31 @@ def oracle_forms(tn, rng, n, r1, Y1):
                                 function='mul_scalar', input=sinp, got=[float(z), float(p), got], expected=exp)
         except Exception as e:
             return dict(what=f'accuracy / stabilised norm / scalar product with every core scaled by 2^{ex} raised {e!r}'[:300], input=sinp)
+    # the documented one-list form of the weights (one vector shared by all modes, all modes equal): must give exactly what
+    # the per-mode form with that vector repeated gives (which the correspondence ties to the model), both sweeps, with / without i
+    du = rng.choice([2, 3, 4])
+    mu = rng.choice([2, 3])
+    nu = [mu] * du
+    Yu = [np.array(G, dtype=float) for G in rand_int_tt(rng, nu, rand_profile(rng, du, 3), -4, 4)]
+    pf = [float(rng.randint(-3, 3)) for _ in range(mu)]
+    if pf == pf[::-1]:
+        pf[0] += 1.0
+    iu = [rng.randrange(mu) for _ in range(du)]
+    for ltr in (False, True):
+        for ii in (None, np.array(iu)):
+            for nm in (None, 'natural'):
+                for form, pflat in (('list of floats', list(pf)), ('float64 array', np.array(pf)), ('list of ints', [int(x) for x in pf])):
+                    try:
+                        a = tn.interface(Yu, P=pflat, i=ii, norm=nm, ltr=ltr)
+                        b = tn.interface(Yu, P=[np.array(pf) for _ in range(du)], i=ii, norm=nm, ltr=ltr)
+                        if len(a) != len(b) or any(np.shape(x) != np.shape(y) or not np.array_equal(x, y) for x, y in zip(a, b)):
+                            return dict(what=f'interface with the shared weight vector given as one {form} differs from the per-mode form '
+                                             f'with that vector repeated (ltr={ltr}, i={"given" if ii is not None else "None"}, norm={nm})',
+                                        function='interface', input=dict(inp, shared_P=pf, nu=nu, Yu=[G.tolist() for G in Yu], iu=iu),
+                                        got=[np.asarray(x).tolist() for x in a], expected=[np.asarray(x).tolist() for x in b])
+                    except Exception as e:
+                        return dict(what=f'interface with a shared weight vector ({form}) raised {e!r}'[:300],
+                                    input=dict(inp, shared_P=pf, nu=nu))
     # history: the same objects went through every call above and must be bit-identical
     for G0, G1 in zip(snap, Yf):
         if G0.tobytes() != G1.tobytes() or G0.shape != G1.shape:
